@@ -369,6 +369,13 @@ where
         }
     }
 
+    /// The slot where the probe sequence of `key` starts
+    fn home_slot(&self, key: Handle) -> usize {
+        // improve uniformity via fibonacci hashing
+        // in wasm sizeof usize is 4, so multiply our already 32 bit hash
+        (key.0.wrapping_mul(2654435769) as usize) & (self.capacity - 1)
+    }
+
     fn find_ind(&self, needle: Handle) -> usize {
         let len = self.capacity;
 
@@ -378,9 +385,7 @@ where
             "Expected self.capacity to be a power of two"
         );
         let len_mask = len - 1;
-        // improve uniformity via fibonacci hashing
-        // in wasm sizeof usize is 4, so multiply our already 32 bit hash
-        let mut ind = (needle.0.wrapping_mul(2654435769) as usize) & len_mask;
+        let mut ind = self.home_slot(needle);
         let ptr = self.handles.as_ptr();
         loop {
             debug_assert!(ind < len);
@@ -523,16 +528,41 @@ where
 
     /// Removes the element and returns `Some(value)` if it was present, else None
     pub fn remove(&mut self, key: Handle) -> Option<T> {
-        let ind = self.find_ind(key);
+        let mut ind = self.find_ind(key);
         unsafe {
-            let kptr = self.handles.as_ptr().add(ind);
-            if (*kptr).0 != 0 {
-                self.count -= 1;
-                *kptr = Handle(0);
-                Some(std::ptr::read(self.values.as_ptr().add(ind)))
-            } else {
-                None
+            let handles = self.handles.as_ptr();
+            let values = self.values.as_ptr();
+            if (*handles.add(ind)).0 == 0 {
+                return None;
             }
+            let result = std::ptr::read(values.add(ind));
+            // backward shift deletion: move the following entries of the probe chain into the
+            // hole, so the handles that probed past the removed slot are still found
+            let len_mask = self.capacity - 1;
+            let mut j = ind;
+            loop {
+                j = (j + 1) & len_mask;
+                let k = *handles.add(j);
+                if k.0 == 0 {
+                    break;
+                }
+                // the entry in `j` can fill the hole in `ind`, unless its home slot is
+                // (cyclically) after the hole, in (ind, j]
+                let home = self.home_slot(k);
+                let home_after_hole = if ind <= j {
+                    ind < home && home <= j
+                } else {
+                    ind < home || home <= j
+                };
+                if !home_after_hole {
+                    *handles.add(ind) = k;
+                    std::ptr::copy_nonoverlapping(values.add(j), values.add(ind), 1);
+                    ind = j;
+                }
+            }
+            *handles.add(ind) = Handle(0);
+            self.count -= 1;
+            Some(result)
         }
     }
 }
